@@ -5,6 +5,8 @@ import OjgVerif.Asm.LemmasPlan
 import OjgVerif.Asm.LemmasRerun
 import OjgVerif.Asm.LemmasTotal
 import OjgVerif.Asm.LemmasLayout
+import OjgVerif.Asm.LemmasText
+import OjgVerif.Asm.LemmasSort
 import OjgVerif.Gen.AsmFacts
 /-! # C20 — assembly plans evaluate totally, deterministically and as documented
 
@@ -85,6 +87,18 @@ theorem dev_current_source :
 
 /-- no deviation is left: the code as it is is the documented behaviour -/
 theorem current_is_documented : Dev.current = Dev.none := rfl
+
+
+/-- REGRESSION TRIPWIRE (syntactic, like `dev_current_source`): the only statements of package asm that assign
+into an argument list (`args[i] = …`, `x.Args[i] = …`, `x.Args = …`) are in the functions that BUILD a plan
+(`NewPlan`, `Fn.compile`) and in `evalValue` (cond's evaluator, which compiles a call it finds inside a pair: the
+known finding C20-cond-compiles-plan-list). No Eval function writes into its `args` — which alias `Fn.Args`, the
+plan itself. The model cannot express such a write (a plan is an immutable `Arg` tree; only its literals are
+heap cells, covered by `plan_cells_untouched`); that executing a plan leaves Simplify()/String() as they were and
+that a reused plan behaves like a fresh one on ANOTHER root is oracle (b') of the run. -/
+theorem plan_args_written_only_when_built :
+    (Gen.AsmFacts.argWrites.map (·.1)).all (fun f => ["Fn.compile", "NewPlan", "evalValue"].contains f) = true ∧
+    Gen.AsmFacts.argWrites ≠ [] := by decide
 
 /-! ## 2. totality
 
@@ -907,6 +921,229 @@ example :
   intro a ha r
   simp at ha
   rcases ha with ha | ha <;> subst ha <;> simp
+
+
+/-! ### text, conversion and list functions -/
+
+/-- the text, conversion and list functions whose arguments are all evaluated values -/
+def textFns : List Bytes :=
+  [b!"tolower", b!"toupper", b!"title", b!"trim", b!"replace", b!"split", b!"substr", b!"join", b!"int", b!"float",
+   b!"string", b!"reverse", b!"append", b!"include"]
+
+/-- For the 14 text, conversion and list functions, arguments of every syntactic kind that evaluate without
+effect to values `vs` of every kind: the evaluator returns what `Spec.describe` says about `vs` — including
+which wrong argument count or kind is an error and which assertion fails first. (For the first eleven the
+specification applies the function's record to the values, see the disclosure in Asm/Spec.lean; the
+closed forms below state what the records compute.) -/
+theorem evalFn_describe_text (env : Env) (ev : Arg → Val → M Val) (root at_ : Val) (h : Heap) (f : Bytes)
+    (args : List Arg) (vs : List Val)
+    (hp : PureArgs (fun a => ev a at_) h args vs) (hf : f ∈ textFns) :
+    evalFn env ev root at_ f args h = Spec.describe env.dev f vs h := by
+  simp only [textFns, List.mem_cons, List.mem_nil_iff, or_false] at hf
+  rcases hf with hf | hf | hf | hf | hf | hf | hf | hf | hf | hf | hf | hf | hf | hf <;> subst hf
+  · simp [evalFn, fnKind, fnTable, lookupKind, evalKind, Spec.describe, fnScalar_spec _ _ h args vs hp]
+  · simp [evalFn, fnKind, fnTable, lookupKind, evalKind, Spec.describe, fnScalar_spec _ _ h args vs hp]
+  · simp [evalFn, fnKind, fnTable, lookupKind, evalKind, Spec.describe, fnScalar_spec _ _ h args vs hp]
+  · simp [evalFn, fnKind, fnTable, lookupKind, evalKind, Spec.describe, fnScalar_spec _ _ h args vs hp]
+  · simp [evalFn, fnKind, fnTable, lookupKind, evalKind, Spec.describe, fnScalar_spec _ _ h args vs hp]
+  · simp [evalFn, fnKind, fnTable, lookupKind, evalKind, Spec.describe, fnScalar_spec _ _ h args vs hp]
+  · simp [evalFn, fnKind, fnTable, lookupKind, evalKind, Spec.describe, fnScalar_spec _ _ h args vs hp]
+  · simp [evalFn, fnKind, fnTable, lookupKind, evalKind, Spec.describe, fnScalar_spec _ _ h args vs hp]
+  · simp [evalFn, fnKind, fnTable, lookupKind, evalKind, Spec.describe, fnScalar_spec _ _ h args vs hp]
+  · simp [evalFn, fnKind, fnTable, lookupKind, evalKind, Spec.describe, fnScalar_spec _ _ h args vs hp]
+  · simp [evalFn, fnKind, fnTable, lookupKind, evalKind, Spec.describe, fnScalar_spec _ _ h args vs hp]
+  · simp [evalFn, fnKind, fnTable, lookupKind, evalKind, Spec.describe, fnReverse_spec _ h args vs hp]
+  · simp [evalFn, fnKind, fnTable, lookupKind, evalKind, Spec.describe, fnAppend_spec _ h args vs hp]
+  · simp [evalFn, fnKind, fnTable, lookupKind, evalKind, Spec.describe, fnInclude_spec _ h args vs hp]
+
+/-- an instance of the hypotheses: `[substr $.src.s 1 2]` with `$.src.s = "hello"` is `"el"` -/
+example :
+    let h : Heap := [Cell.map [(b!"src", .mref 1)], Cell.map [(b!"s", .str b!"hello")]]
+    let args : List Arg := [.path ⟨false, [.child b!"src", .child b!"s"]⟩, .lit (.int 1), .lit (.int 2)]
+    PureArgs (fun a => eval envCur (.mref 0) 3 a (.mref 0)) h args [.str b!"hello", .int 1, .int 2] ∧
+    evalFn envCur (eval envCur (.mref 0) 3) (.mref 0) (.mref 0) b!"substr" args h = (.ok (.str b!"el"), h) := by
+  decide
+
+/-! closed forms: what the records compute on well-typed arguments, and that a wrong kind is an error -/
+
+/-- `tolower`/`toupper` map every character of an ASCII text; anything but exactly one string is an error -/
+theorem tolower_spec (dev : Dev) (s : Bytes) (hs : isAscii s = true) (h : Heap) :
+    Spec.describe dev b!"tolower" [.str s] h = (.ok (.str (s.map lowerB)), h) ∧
+    Spec.describe dev b!"toupper" [.str s] h = (.ok (.str (s.map upperB)), h) := by
+  simp [Spec.describe, Spec.scalar, Spec.acceptAll, sfCase, Want.accept, asciiOr, hs, Tree.toVal]
+
+theorem text_fn_not_string (dev : Dev) (v : Val) (hv : v.isStr = false) (h : Heap) :
+    ∀ f ∈ [b!"tolower", b!"toupper", b!"title", b!"trim"], Spec.describe dev f [v] h = (Spec.raise, h) := by
+  intro f hf
+  simp only [List.mem_cons, List.mem_nil_iff, or_false] at hf
+  rcases hf with hf | hf | hf | hf <;> subst hf <;> cases v <;>
+    simp_all [Spec.describe, Spec.scalar, Spec.acceptAll, sfCase, sfTitle, sfTrim, Want.accept, Spec.raise, Val.isStr]
+
+/-- `title`: the first character to upper case, the rest as it is -/
+theorem title_spec (dev : Dev) (c : UInt8) (r : Bytes) (hs : isAscii (c :: r) = true) (h : Heap) :
+    Spec.describe dev b!"title" [.str (c :: r)] h = (.ok (.str (upperB c :: r)), h) ∧
+    Spec.describe dev b!"title" [.str []] h = (.ok (.str []), h) := by
+  simp [Spec.describe, Spec.scalar, Spec.acceptAll, sfTitle, Want.accept, asciiOr, hs, Tree.toVal]
+
+/-- `trim`: white space (one argument) or the characters of the cut set (two) removed from both ends -/
+theorem trim_spec (dev : Dev) (s cut : Bytes) (hs : isAscii s = true) (hc : isAscii cut = true) (h : Heap) :
+    Spec.describe dev b!"trim" [.str s] h = (.ok (.str (trimBoth isSpaceB s)), h) ∧
+    Spec.describe dev b!"trim" [.str s, .str cut] h = (.ok (.str (trimBoth (fun c => cut.contains c) s)), h) := by
+  have hsc : isAscii (s ++ cut) = true := by simp_all [isAscii]
+  simp [Spec.describe, Spec.scalar, Spec.acceptAll, sfTrim, Want.accept, asciiOr, hs, hsc, Tree.toVal]
+
+/-- `replace`: every occurrence (found from left to right) of a non-empty second argument replaced -/
+theorem replace_spec (dev : Dev) (s old new : Bytes) (ho : old ≠ []) (h : Heap) :
+    Spec.describe dev b!"replace" [.str s, .str old, .str new] h = (.ok (.str (replaceAll s old new)), h) := by
+  simp [Spec.describe, Spec.scalar, Spec.acceptAll, sfReplace, Want.accept, ho, Tree.toVal]
+
+/-- `split`: a NEW array of the pieces between the occurrences of a non-empty separator -/
+theorem split_spec (dev : Dev) (s sep : Bytes) (hsep : sep ≠ []) (h : Heap) :
+    Spec.describe dev b!"split" [.str s, .str sep] h =
+      (.ok (.aref h.length), h ++ [.arr ((splitOn s sep).map Val.str)]) := by
+  simp [Spec.describe, Spec.scalar, Spec.acceptAll, sfSplit, Want.accept, hsep, List.map_map, Function.comp_def, Tree.toVal]
+
+/-- `substr` with a start inside the text: `count` bytes from `start` (as many as there are), or the rest -/
+theorem scalar_of_fin (g : ScalarFn) (vs : List Val) (h : Heap) (acc : List Tree) (s : Bytes)
+    (ha : g.arity vs.length = true)
+    (hadm : Spec.acceptAll h (g.wants vs.length) (if g.swap = true then vs.reverse else vs) [] = .ok acc)
+    (hfin : g.fin vs.length acc = .ok (.str s)) : Spec.scalar g vs h = (.ok (.str s), h) := by
+  unfold Spec.scalar
+  simp [ha, hadm, hfin, Tree.toVal]
+
+theorem substr_fin3 (s : Bytes) (start count : Nat) (hst : start ≤ s.length)
+    (hc : inInt64 ((start : Int) + count)) :
+    sfSubstr.fin 3 [.str s, .int start, .int count] = .ok (.str ((s.drop start).take count)) := by
+  have hw : wrap64 ((start : Int) + count) = (start : Int) + count := wrap64_of_inInt64 hc
+  have h1 : ¬ ((start : Int) < 0) := by omega
+  have h2 : ¬ ((count : Int) < 0) := by omega
+  simp only [sfSubstr, h1, h2, if_false, hw]
+  by_cases hlen : (s.length : Int) < (start : Int) + count
+  · have hl2 : s.length - start ≤ count := by omega
+    simp [sliceStr, hlen, hst]
+    omega
+  · have h3 : (start : Int) ≤ (start : Int) + count := by omega
+    have h5 : (start : Int) + count ≤ (s.length : Int) := by omega
+    have h4 : ((start : Int) + count).toNat - start = count := by omega
+    simp [sliceStr, hlen, h3, h4, h5]
+
+/-- see above -/
+theorem substr_spec (dev : Dev) (s : Bytes) (start count : Nat) (hst : start ≤ s.length)
+    (hc : inInt64 ((start : Int) + count)) (h : Heap) :
+    Spec.describe dev b!"substr" [.str s, .int start] h = (.ok (.str (s.drop start)), h) ∧
+    Spec.describe dev b!"substr" [.str s, .int start, .int count] h = (.ok (.str ((s.drop start).take count)), h) := by
+  constructor
+  · have h1 : ¬ ((start : Int) < 0) := by omega
+    simp [Spec.describe, Spec.scalar, Spec.acceptAll, sfSubstr, Want.accept, sliceStr, h1, Tree.toVal, hst]
+    rw [List.take_of_length_le]; simp
+  · have hd : Spec.describe dev b!"substr" [.str s, .int start, .int count] h =
+        Spec.scalar sfSubstr [.str s, .int start, .int count] h := by simp [Spec.describe]
+    rw [hd]
+    exact scalar_of_fin sfSubstr _ h [.str s, .int start, .int count] _ rfl rfl (substr_fin3 s start count hst hc)
+theorem treeStrs_strs : ∀ (ss : List Bytes), treeStrs (ss.map (Val.toTreeS ∘ Val.str)) = ss
+  | [] => rfl
+  | x :: r => by simp [treeStrs, Val.toTreeS, treeStrs_strs r]
+
+/-- `join`: the strings of the list with the separator between them (none: nothing between them) -/
+theorem join_spec (dev : Dev) (a : Nat) (ss : List Bytes) (sep : Bytes) (h : Heap) (ha : h.arrAt a = ss.map Val.str) :
+    Spec.describe dev b!"join" [.aref a] h = (.ok (.str (joinWith [] ss)), h) ∧
+    Spec.describe dev b!"join" [.aref a, .str sep] h = (.ok (.str (joinWith sep ss)), h) := by
+  have h1 : ((ss.map Val.str).all Val.isStr) = true := by simp [Val.isStr]
+  constructor
+  · simp [Spec.describe, Spec.scalar, Spec.acceptAll, sfJoin, Want.accept, ha, h1, treeStrs_strs, Tree.toVal]
+  · simp [Spec.describe, Spec.scalar, Spec.acceptAll, sfJoin, Want.accept, ha, h1, treeStrs_strs, Tree.toVal]
+
+/-- `int`: an integer as it is, a float truncated toward zero, a decimal text read; anything else is nil -/
+theorem int_spec (dev : Dev) (i : Int) (h : Heap) :
+    Spec.describe dev b!"int" [.int i] h = (.ok (.int i), h) ∧
+    Spec.describe dev b!"int" [.flt (.fin true 5 (-1))] h = (.ok (.int (-2)), h) ∧
+    Spec.describe dev b!"int" [.str b!"-12"] h = (.ok (.int (-12)), h) ∧
+    Spec.describe dev b!"int" [.str b!"1x"] h = (.ok .null, h) ∧
+    Spec.describe dev b!"int" [.bool true] h = (.ok .null, h) ∧
+    Spec.describe dev b!"int" [.aref 0] h = (.ok .null, h) ∧
+    Spec.describe dev b!"int" [] h = (Spec.raise, h) := by
+  have e1 : (Flt.fin true 5 (-1)).trunc = some (-2) := by decide
+  have e2 : parseIntText b!"-12" = some (-12) := by decide
+  have e3 : parseIntText b!"1x" = none := by decide
+  refine ⟨?_, ?_, ?_, ?_, ?_, ?_, ?_⟩ <;>
+    simp [Spec.describe, Spec.scalar, Spec.acceptAll, sfInt, Want.accept, Tree.toVal, Spec.raise, e1, e2, e3]
+
+/-- `float`: an integer converted (rounded to binary64), a float as it is; a list is nil -/
+theorem float_spec (dev : Dev) (i : Int) (x : Flt) (h : Heap) :
+    Spec.describe dev b!"float" [.int i] h = (.ok (.flt (Flt.ofInt i)), h) ∧
+    Spec.describe dev b!"float" [.flt x] h = (.ok (.flt x), h) ∧
+    Spec.describe dev b!"float" [.mref 0] h = (.ok .null, h) := by
+  refine ⟨?_, ?_, ?_⟩ <;> simp [Spec.describe, Spec.scalar, Spec.acceptAll, sfFloat, Want.accept, Tree.toVal]
+
+/-- `string` without a format: `%d` of an integer, the string itself, `%v` of nil and booleans -/
+theorem string_spec (dev : Dev) (i : Int) (s : Bytes) (h : Heap) :
+    Spec.describe dev b!"string" [.int i] h = (.ok (.str (fmtD i)), h) ∧
+    Spec.describe dev b!"string" [.str s] h = (.ok (.str s), h) ∧
+    Spec.describe dev b!"string" [.null] h = (.ok (.str b!"<nil>"), h) ∧
+    Spec.describe dev b!"string" [.bool true] h = (.ok (.str b!"true"), h) ∧
+    Spec.describe dev b!"string" [.int i, .int 3] h = (Spec.raise, h) := by
+  refine ⟨?_, ?_, ?_, ?_, ?_⟩ <;>
+    simp [Spec.describe, Spec.scalar, Spec.acceptAll, sfString, Want.accept, Tree.toVal, Spec.raise]
+
+/-- `include`: a value is found among scalars by Go's `==`; an int is not the float of the same value -/
+theorem include_spec (dev : Dev) (h : Heap) (a : Nat) (ha : h.arrAt a = [.int 1, .str b!"x", .flt (.fin false 2 0)]) :
+    Spec.describe dev b!"include" [.aref a, .str b!"x"] h = (.ok (.bool true), h) ∧
+    Spec.describe dev b!"include" [.aref a, .int 2] h = (.ok (.bool false), h) ∧
+    Spec.describe dev b!"include" [.str b!"hello", .str b!"ell"] h = (.ok (.bool true), h) ∧
+    Spec.describe dev b!"include" [.str b!"hello", .int 1] h = (Spec.raise, h) := by
+  refine ⟨?_, ?_, ?_, ?_⟩ <;> simp [Spec.describe, Spec.includ, Spec.includes, ha, goEq, Spec.raise] <;> decide
+
+/-! the list functions copy: `reverse`, `append` and `sort` return a NEW array and leave the one they are given
+(and every other existing cell) as it was — seeded change C20-m2 ("sort sorts its argument in place") contradicts
+`sort_copies` -/
+
+/-- `reverse`, `append`, `sort` (and every other non-mutator) applied to arguments that are evaluated by
+mutator-free computations only ADD cells: the array they are given is unchanged -/
+theorem list_fns_copy (env : Env) (root at_ : Val) (fuel : Nat) (f : Bytes) (args : List Arg) (h : Heap)
+    (hf : f ∈ [b!"reverse", b!"append", b!"sort"]) (hargs : ∀ a ∈ args, NoMut a) :
+    ∃ t, (evalFn env (eval env root fuel) root at_ f args h).2 = h ++ t := by
+  have hnm : f ∉ mutatorFns := by
+    simp only [List.mem_cons, List.mem_nil_iff, or_false] at hf
+    rcases hf with hf | hf | hf <;> subst hf <;> decide
+  exact (evalFn_pres env (eval env root fuel) root at_ f args hnm
+    (fun a ha at' => eval_pres env root fuel a ha at') hargs).ext h
+
+/-- `sort` as documented ("Sort the items in an array and return a copy of the array. Valid types for comparison
+are strings, numbers … a type mismatch will raise an error"), for arrays of at most 12 elements (Go's insertion
+sort; longer arrays are outside the model): with the first argument evaluating without effect to the array `c`
+and a path as second argument, the call returns a NEW array `r` (the heap only grows by that cell) that is a
+permutation of the elements of `c` — the same values and references — and is in order by the key the path
+selects in each element: no element's key is less than its predecessor's (`SortedBy`; strings with strings,
+numbers with numbers by exact value). -/
+theorem sort_spec (env : Env) (e : Arg → M Val) (a : Arg) (p : Path) (c : Nat) (h : Heap)
+    (ha : e a h = (.ok (.aref c), h)) :
+    fnSort env e [a, .path p] h =
+      (match sortList env h p.frags (h.arrAt c) with
+       | .ok r => (.ok (.aref h.length), h ++ [.arr r])
+       | .error er => (.error er, h)) ∧
+    ∀ r, sortList env h p.frags (h.arrAt c) = .ok r → List.Perm r (h.arrAt c) ∧ SortedBy env h p.frags r := by
+  constructor
+  · simp only [fnSort, bind_apply, ha, getHeap_apply, liftE_apply]
+    cases sortList env h p.frags (h.arrAt c) <;> simp
+  · intro r hr
+    exact ⟨sortList_perm env h p.frags _ r hr, sortList_sorted env h p.frags _ r hr⟩
+
+/-- mixed key kinds, a key that is neither a string nor a number, and a second argument that is not a path are
+errors; a single element is never compared (no error whatever it is) -/
+theorem sort_errors :
+    sortList envCur [] [] [.int 3, .str b!"a"] = .error .panic ∧
+    sortList envCur [] [] [.bool true, .bool false] = .error .panic ∧
+    sortList envCur [] [] [.bool true] = .ok [.bool true] ∧
+    sortList envCur [] [] [.int 3, .flt (.fin false 5 (-1)), .int 1, .int 1] = .ok [.int 1, .int 1, .flt (.fin false 5 (-1)), .int 3] ∧
+    (fnSort envCur (fun _ => pure (.aref 0)) [.lit .null, .lit (.str b!"x")] [Cell.arr []]).1 = .error .panic := by
+  decide
+
+/-- `[sort $.src.l @]` on `{src:{l:[3,1,2]}}`: the result is the new array `[1,2,3]`, `$.src.l` still reads `[3,1,2]` -/
+theorem sort_copies :
+    let h : Heap := [Cell.map [(b!"src", .mref 1)], Cell.map [(b!"l", .aref 2)], Cell.arr [.int 3, .int 1, .int 2]]
+    let r := evalFn envCur (eval envCur (.mref 0) 3) (.mref 0) (.mref 0) b!"sort"
+      [.path ⟨false, [.child b!"src", .child b!"l"]⟩, .path ⟨true, []⟩] h
+    r.1 = .ok (.aref 3) ∧ r.2 = h ++ [Cell.arr [.int 1, .int 2, .int 3]] := by decide
 
 /-! ## 5. frame -/
 
